@@ -56,6 +56,19 @@ def register_titled_directive():
 
     directives.register_directive("mv-titled", Titled)
 
+    class TitledSection(Directive):
+        """The other common idiom (nested_parse_with_titles): parse into a throw-away section and return its children."""
+
+        has_content = True
+
+        def run(self):
+            node = nodes.section()
+            node.document = self.state.document
+            self.state.nested_parse(self.content, self.content_offset, node, match_titles=True)
+            return node.children
+
+    directives.register_directive("mv-titled-section", TitledSection)
+
 
 def teardown(ctx):
     mon.finish_reach(ctx, ANCHORS)
@@ -162,6 +175,13 @@ def build(case):
                 hline[f"tb{n}x{j}"] = len(lines) + 1 + len(inner) + 1
                 inner += ["#" * L + f" tb{n}x{j}", "", f"tq{n}x{j} inside titled", ""]
             lines += ["````{mv-titled}"] + inner + ["````", ""]
+        elif k == "s":
+            # the same through the throw-away-section idiom: whatever the body's headings become, the OUTER structure must not change
+            inner = []
+            for j, L in enumerate(it[1]):
+                hline[f"tb{n}x{j}"] = len(lines) + 1 + len(inner) + 1
+                inner += ["#" * L + f" ts{n}x{j}", "", f"tq{n}x{j} inside titled", ""]
+            lines += ["````{mv-titled-section}"] + inner + ["````", ""]
         elif k == "p":
             m = f"pp{n}"
             lines += [m + " text", ""]
@@ -301,7 +321,7 @@ def eval_case(ctx, case):
                 ctx.violation("titled:section-escaped-directive", f"section {t0} created inside a match_titles directive is not below that directive's node", case, detail)
             ctx.count("titled_sections_checked")
     for m in seen:
-        if m.startswith("tb"):
+        if m.startswith(("tb", "ts")):
             continue
         if m not in exp_parent:
             key = "rubric:nested-heading-opened-section" if m in rubrics else "parent:unexpected-section"
@@ -426,8 +446,10 @@ def run_shard(ctx):
                 items.append(["h", L, R.choice(["atx", "setext"]) if L <= 2 else "atx"])
             elif x < 0.65:
                 items.append(["c", R.choice(CONTAINERS), R.randint(1, 6), R.random() < 0.5])
-            elif x < 0.72:
+            elif x < 0.70:
                 items.append(["t", [R.randint(1, 6) for _ in range(R.randint(1, 3))]])
+            elif x < 0.74:
+                items.append(["s", [R.randint(1, 6) for _ in range(R.randint(1, 3))]])
             elif x < 0.8:
                 items.append(["p"])
             elif x < 0.92:
